@@ -999,3 +999,150 @@ package stats
 //@   ensures [stopped-at-zero-term] f(wn - 1) == 0
 //@   loop 1 invariant n >= 0 && y == rsumf(f, n) && (n >= 1 ==> yp == rsumf(f, n - 1)) && (n < 1 ==> n == 0 && y == 0 && yp == 1)
 //@   assigns nothing
+
+// ---------------------------------------------------------------------
+// KDE pieces (C12). Model real.
+
+//@ spec epan_pdf(h float64, x float64) float64 = (-h < x && x < h) ? (0.75 / h) * (1 - x * x * (1 / (h * h))) : 0
+//@ spec epan_cdf(h float64, x float64) float64 = x > h ? 1 : (x > -h ? 0.25 * (2 + 3 * (x * (1 / h)) - (x * (1 / h)) * (x * (1 / h)) * (x * (1 / h))) : 0)
+
+//@ func epanechnikovKernel.pdfEach
+//@   model real
+//@   requires d.h > 0
+//@   ensures [len]    len(result) == len(xs) && fresh(result)
+//@   ensures [each]   forall i in 0..len(xs) :: result[i] == epan_pdf(d.h, xs[i])
+//@   ensures [nonneg] forall i in 0..len(xs) :: result[i] >= 0
+//@   loop 1 (i) invariant len(ys) == len(xs) && fresh(ys) && (forall j in 0..i :: ys[j] == epan_pdf(d.h, xs[j]) && ys[j] >= 0) && (forall j in i..len(xs) :: ys[j] == 0)
+//@   assigns nothing
+
+//@ func epanechnikovKernel.cdfEach
+//@   model real
+//@   requires d.h > 0
+//@   ensures [len]   len(result) == len(xs) && fresh(result)
+//@   ensures [each]  forall i in 0..len(xs) :: result[i] == epan_cdf(d.h, xs[i])
+//@   ensures [range] forall i in 0..len(xs) :: 0 <= result[i] && result[i] <= 1
+//@   loop 1 (i) invariant len(ys) == len(xs) && fresh(ys) && (forall j in 0..i :: ys[j] == epan_cdf(d.h, xs[j]) && 0 <= ys[j] && ys[j] <= 1) && (forall j in i..len(xs) :: ys[j] == 0)
+//@   assigns nothing
+
+// Epanechnikov kernel laws: the CDF is continuous at +-h, non-decreasing, and
+// its derivative polynomial is the PDF (coefficient identity).
+//@ lemma epan_cdf_ends(h real)
+//@   model real
+//@   requires h > 0
+//@   ensures 0.25 * (2 + 3 * (h * (1 / h)) - (h * (1 / h)) * (h * (1 / h)) * (h * (1 / h))) == 1
+//@   ensures 0.25 * (2 + 3 * (-h * (1 / h)) - (-h * (1 / h)) * (-h * (1 / h)) * (-h * (1 / h))) == 0
+//@ lemma epan_cdf_monotone(h real, a real, b real)
+//@   model real
+//@   requires h > 0 && -h <= a && a <= b && b <= h
+//@   ensures 0.25 * (2 + 3 * (a / h) - (a / h) * (a / h) * (a / h)) <= 0.25 * (2 + 3 * (b / h) - (b / h) * (b / h) * (b / h))
+
+//@ func KDE.normalizedXs
+//@   model real
+//@   requires kde != nil
+//@   ensures [len]  len(result) == len(kde.Sample.Xs) && fresh(result)
+//@   ensures [each] forall i in 0..len(result) :: result[i] == x - kde.Sample.Xs[i]
+//@   loop 1 (i) invariant len(txs) == len(kde.Sample.Xs) && fresh(txs) && (forall j in 0..i :: txs[j] == x - kde.Sample.Xs[j])
+//@   assigns nothing
+
+// The reflection series bodies of KDE.PDF / KDE.CDF with two boundaries, each
+// verified as a function literal of its own. With d = 2*(Max - Min) and
+// w = 2*(x - Min) (checked in the enclosing function), x - w = 2*Min - x is the
+// mirror image of x at Min, and the images of x under repeated reflection are
+// x + n*d and (x - w) + n*d for all integers n: the first series covers n >= 0,
+// the second n <= -1. y is the captured kernel average (a pure function, A8).
+//@ func KDE.PDF#lit2
+//@   model real
+//@   requires n >= 0
+//@   ensures [images] result == y(x + n * d) + y((x - w) + n * d)
+//@   assigns nothing
+//@ func KDE.PDF#lit3
+//@   model real
+//@   requires n >= 0
+//@   ensures [images] result == y((x - w) - (n + 1) * d) + y(x - (n + 1) * d)
+//@   assigns nothing
+// CDF: each window [mirror image, image] contributes Y(image) - Y(mirror image).
+//@ func KDE.CDF#lit2
+//@   model real
+//@   requires n >= 0
+//@   ensures [images] result == y(x + n * d) - y((x - w) + n * d)
+//@   assigns nothing
+//@ func KDE.CDF#lit3
+//@   model real
+//@   requires n >= 0
+//@   ensures [images] result == y(x - (n + 1) * d) - y((x - w) - (n + 1) * d)
+//@   assigns nothing
+
+// Kernels behind the kdeKernel interface: fresh result of the same length.
+//@ assume func kdeKernel.pdfEach
+//@   results ys
+//@   ensures len(ys) == len(xs) && fresh(ys)
+//@   assigns nothing
+//@ assume func kdeKernel.cdfEach
+//@   results ys
+//@   ensures len(ys) == len(xs) && fresh(ys)
+//@   assigns nothing
+
+// Bandwidth rules (C12): data is any value with StdDev / Weight / Quantile.
+//@ assume pure ?.StdDev
+//@ assume pure ?.Weight
+//@ assume pure ?.Quantile
+
+//@ func BandwidthSilverman
+//@   model real
+//@   ensures [rule] result == 1.06 * data.StdDev() * pow(data.Weight(), -1.0 / 5)
+//@   assigns nothing
+
+//@ func BandwidthScott
+//@   deterministic
+//@   model real
+//@   ensures [rule] result == 1.06 * pow(data.Weight(), -1.0 / 5) * min(data.StdDev(), (data.Quantile(0.75) - data.Quantile(0.25)) / 1.349)
+//@   assigns nothing
+
+//@ spec wfKDE(k KDE) bool =
+//@     (k.Kernel == EpanechnikovKernel || k.Kernel == GaussianKernel || k.Kernel == DeltaKernel) && k.BoundaryMethod == BoundaryReflect &&
+//@     wfSample(k.Sample) && (!isnil(k.Sample.Weights) ==> nonneg(k.Sample.Weights)) &&
+//@     (isnil(k.Sample.Weights) ==> len(k.Sample.Xs) > 0) && (!isnil(k.Sample.Weights) ==> fsum(k.Sample.Weights, len(k.Sample.Weights)) > 0)
+
+//@ func KDE.prepare
+//@   model real
+//@   requires k != nil && wfKDE(*k)
+//@   results kernel, bc
+//@   ensures [lazy-bandwidth] old(k.Bandwidth) != 0 ==> k.Bandwidth == old(k.Bandwidth)
+//@   ensures [scott]          old(k.Bandwidth) == 0 ==> k.Bandwidth == BandwidthScott(old(k.Sample))
+//@   ensures [bc]             bc <==> (k.BoundaryMin != 0 || k.BoundaryMax != 0)
+//@   ensures [frame]          k.Sample == old(k.Sample) && k.Kernel == old(k.Kernel) && k.BoundaryMethod == old(k.BoundaryMethod) && k.BoundaryMin == old(k.BoundaryMin) && k.BoundaryMax == old(k.BoundaryMax)
+//@   assigns k.Bandwidth
+
+// The kernel average y(x) of KDE.PDF / KDE.CDF as a literal with a contract
+// of its own: deterministic, reads only.
+//@ func KDE.PDF#lit1
+//@   deterministic
+//@   model real
+//@   requires kde != nil && wfKDE(*kde)
+//@   assigns nothing
+//@ func KDE.CDF#lit1
+//@   deterministic
+//@   model real
+//@   requires kde != nil && wfKDE(*kde)
+//@   assigns nothing
+
+//@ func KDE.PDF
+//@   model real
+//@   requires kde != nil && wfKDE(*kde)
+//@   ensures [outside] (kde.BoundaryMin != 0 || kde.BoundaryMax != 0) && (x < kde.BoundaryMin || x >= kde.BoundaryMax) ==> result == 0
+//@   check @ret2 [unbounded]  result0 == y(x)
+//@   check @ret3 [lower-only] result0 == y(x) + y(2 * kde.BoundaryMin - x)
+//@   check @ret4 [upper-only] result0 == y(x) + y(2 * kde.BoundaryMax - x)
+//@   check @ret5 [period]     d == 2 * (kde.BoundaryMax - kde.BoundaryMin) && w == 2 * (x - kde.BoundaryMin)
+//@   assigns kde.Bandwidth
+
+//@ func KDE.CDF
+//@   model real
+//@   requires kde != nil && wfKDE(*kde)
+//@   ensures [below] (kde.BoundaryMin != 0 || kde.BoundaryMax != 0) && x < kde.BoundaryMin ==> result == 0
+//@   ensures [above] (kde.BoundaryMin != 0 || kde.BoundaryMax != 0) && !(x < kde.BoundaryMin) && x >= kde.BoundaryMax ==> result == 1
+//@   check @ret3 [unbounded]  result0 == y(x)
+//@   check @ret4 [lower-only] result0 == y(x) - y(2 * kde.BoundaryMin - x)
+//@   check @ret5 [upper-only] result0 == y(x) + (1 - y(2 * kde.BoundaryMax - x))
+//@   check @ret6 [period]     d == 2 * (kde.BoundaryMax - kde.BoundaryMin) && w == 2 * (x - kde.BoundaryMin)
+//@   assigns kde.Bandwidth
